@@ -43,6 +43,11 @@ def regionCoords (r : Rectangle) : List (Int × Int) :=
 def Canvas.visits (c : Canvas) (r : Rectangle) : List (Element × Int × Int) :=
   (regionCoords r).map fun p => (c.get p.1 p.2, p.1, p.2)
 
+/-- `for_each_in_region(c, r, [&](element &cell, …){ cell = e; })`: the callable is handed a REFERENCE to the cell,
+    so assigning through it assigns the canvas cell – a region fill -/
+def Canvas.fill (c : Canvas) (r : Rectangle) (e : Element) : Canvas :=
+  (regionCoords r).foldl (fun acc p => acc.set p.1 p.2 e) c
+
 /-- `canvas::resize(size)` -/
 def Canvas.resize (c : Canvas) (size : Extent) : Canvas :=
   let minW := min size.width c.size.width
